@@ -110,7 +110,7 @@ def local_coords(b, R, t):
 
 def primitive(b, rng, centre_range, size_range, axis_aligned_p=0.25):
     """returns (node, description, bounding radius about the origin)"""
-    kind = rng.choice(["sphere", "box", "box", "cylinder", "torus"])
+    kind = rng.choice(["sphere", "box", "box", "cylinder", "torus", "wedge"])
     t = [rng.uniform(-centre_range, centre_range) for _ in range(3)]
     if rng.random() < 0.3:      # lattice-aligned centres: surfaces through cell corners / faces
         t = [round(c * 4) / 4 for c in t]
@@ -133,6 +133,23 @@ def primitive(b, rng, centre_range, size_range, axis_aligned_p=0.25):
         rad = b.sub(b.un("sqrt", b.add(b.un("square", u[0]), b.un("square", u[1]))), b.const(r))
         node = b.max(rad, b.sub(b.un("abs", u[2]), b.const(h)))
         desc, br = ("cylinder", r, h), math.sqrt(r * r + h * h)
+    elif kind == "wedge":
+        # thin truncated wedge / blade: two planes at a small dihedral angle whose common line lies OUTSIDE the
+        # solid (cut away by a third plane), thinner than a cell near the cut: a cell there sees both faces but
+        # not the truncating one (bounded vertex placement matters exactly here).  All faces are planes with unit
+        # normals, so the field is a 1-Lipschitz lower bound of the distance.
+        th = math.radians(rng.uniform(3.0, 9.0))
+        L, tipd, h = rng.uniform(0.5, 0.9), rng.uniform(0.3, 0.6), rng.uniform(0.25, 0.5)
+        # local frame: thin direction u1, length direction u0; faces meet at u0 = L/2 + tipd, cut at u0 = L/2
+        tip = L / 2 + tipd
+        cs, sn = math.cos(th), math.sin(th)
+        d0 = b.sub(u[0], b.const(tip))
+        fp = b.add(b.mul(b.const(cs), u[1]), b.mul(b.const(sn), d0))
+        fm = b.add(b.mul(b.const(-cs), u[1]), b.mul(b.const(sn), d0))
+        ends = b.max(b.sub(u[0], b.const(L / 2)), b.sub(b.const(-L / 2), u[0]))
+        node = b.max(b.max(b.max(fp, fm), ends), b.sub(b.un("abs", u[2]), b.const(h)))
+        thick = (L + tipd) * math.tan(th)
+        desc, br = ("wedge", math.degrees(th), L, tipd, h), math.sqrt((L / 2) ** 2 + thick ** 2 + h * h)
     else:
         R0 = s()
         r = rng.uniform(0.25, 0.6) * R0
@@ -201,6 +218,41 @@ def gen_shape(rng, half=2.0):
     elif mode < 0.4:
         hi = [h + rng.uniform(0, 1.0) for h in hi]
     return {"builder": b, "lines": b.lines, "root": node, "prims": prims, "ops": ops, "region": (lo, hi), "nodes": b.n}
+
+
+def gen_blade(rng, levels):
+    """Directed family for the 'bounded vertex placement' mechanism (C04): an axis-aligned thin truncated wedge
+    whose two faces fall into ONE row of cells of the level-`levels` grid of the cube [-1,1]^3 near its cut-off end,
+    so that a cell there sees both faces (an exact planar fit whose crease line lies outside the cell and off the
+    solid) but not the truncating plane.  Returns the same dict as gen_shape plus the min_feature to use."""
+    b = Builder()
+    half = 1.0
+    cell = 2 * half / (2 ** levels)
+    perm = rng.choice([(0, 1, 2), (1, 2, 0), (2, 0, 1), (0, 2, 1), (1, 0, 2), (2, 1, 0)])
+    ax = [(b.X, b.Y, b.Z)[i] for i in perm]            # ax[0] length, ax[1] thin, ax[2] width
+    th = math.radians(rng.uniform(3.5, 8.0))
+    sgn = rng.choice([1.0, -1.0])                      # which way the blade points
+    # the SOLID must lie strictly inside the region (|coordinates| <= 0.85): choose the cut first, the faces'
+    # common line `tip` beyond it (possibly outside the region: it is not part of the solid)
+    cut = rng.uniform(0.1, 0.8)
+    tip = cut + rng.uniform(3.0, 5.0) * cell           # thickness at the cut: 2*(tip-cut)*tan(th) below one cell
+    while 2 * (tip - cut) * math.tan(th) > 0.9 * cell:
+        tip -= 0.5 * cell
+    base = max(cut - rng.uniform(0.5, 0.9), -0.85)
+    row = rng.randint(-(2 ** levels) // 4, (2 ** levels) // 4)
+    c1 = (row + 0.5) * cell + rng.uniform(-0.1, 0.1) * cell      # thin direction centred in a row of cells
+    w = rng.uniform(0.35, 0.6)
+    u0 = b.mul(b.const(sgn), ax[0]) if sgn < 0 else ax[0]
+    u1 = b.sub(ax[1], b.const(c1))
+    d0 = b.sub(u0, b.const(tip))
+    cs, sn = math.cos(th), math.sin(th)
+    fp = b.add(b.mul(b.const(cs), u1), b.mul(b.const(sn), d0))
+    fm = b.add(b.mul(b.const(-cs), u1), b.mul(b.const(sn), d0))
+    ends = b.max(b.sub(u0, b.const(cut)), b.sub(b.const(base), u0))
+    node = b.max(b.max(b.max(fp, fm), ends), b.sub(b.un("abs", ax[2]), b.const(w)))
+    mf = cell * rng.uniform(1.02, 1.5)
+    return {"builder": b, "lines": b.lines, "root": node, "prims": [{"kind": ("blade", math.degrees(th), tip, cut, base, c1, w, perm, sgn)}],
+            "ops": [], "region": ([-half] * 3, [half] * 3), "nodes": b.n, "min_feature": mf}
 
 
 def min_feature_for_levels(rng, size, levels):
